@@ -303,6 +303,9 @@ func TestC03_SharedChannelSenders(t *testing.T) {
 		}
 		kase := &c03bCase{Config: cfg, Channels: scripts}
 		f := runC03b(cfg, scripts)
+		if f.key == "infra" {
+			ev.InfraSkip(rt, c03, "%s", f.msg)
+		}
 		if f.key != "" {
 			kase.Failure = f.msg
 			ev.Violation(rt, c03, f.key, kase, "%s", f.msg)
@@ -344,7 +347,7 @@ func runC03b(cfg netConfig, scripts []*sharedScript) (f failure) {
 		}()
 		conn, st := mpx.Connect(ctxNone(), srv.Addr, log, cfg.options())
 		if !st.OK() {
-			f = failure{"connect-failed", fmt.Sprintf("Connect: %v", st)}
+			f = failure{"infra", fmt.Sprintf("Connect: %v", st)}
 			return
 		}
 		defer conn.Close()
